@@ -122,6 +122,14 @@ def _shard(args):
         fp = monitor("python", name, cfg, po, vb, wit, cal[ck][0])
         fr = monitor("rust", name, cfg, ro, vb, wit, cal[ck][1])
         n += 2 * steps
+        if p in ("nop", "wait", "halt") and hn == "reti":
+            # the same run with a key held on a strobed column from the start: key events (and the KEYI status bit they raise on
+            # a tick) must not cost a timer its status bit or its boundary
+            histk = [("press", "KEY_Q")] + hist
+            witk = dict(wit, key=True)
+            monitor("python", name + "|key", cfg, M.run_py(cfg, histk)[1:], vb, witk, cal[ck][0])
+            monitor("rust", name + "|key", cfg, M.run_rs(h, cfg, histk)[1:], vb, witk, cal[ck][1])
+            n += 2 * steps
     return {"n": n, "configs": len(combos), "vb": vb}
 
 
